@@ -8,6 +8,11 @@ V = Path(__file__).resolve().parent.parent
 ALL = [f'C{n:02d}' for n in range(1, 21)]
 
 CHECKS = {
+    'C04': dict(
+        cat='model_checking', ref='DESIGN.md section 5 C04',
+        text='CashFlow.tla (cash-flow assembly loops and payback scan as a loop machine) is model-checked exhaustively over small series of every sign pattern incl. negative capital cost; the same small series are replayed into the real CalculateRevenue, calculate_npv and CalculateFinancialPerformance; economics snapshots of real runs (all end-uses, plants, economic models, add-ons, carbon, sign-pattern drivers, examples) are validated year by year by TraceCashFlow.tla in exact rational arithmetic (cf, cum, per-product revenue, NPV both conventions, IRR residual, VIR, MOIC, payback, N/A).',
+        note='Trusted: TLC, BigInteger rationals, float projection. IRR by residual <= 1e-6 of sum of |terms|; other clauses 1e-9 of sum of |terms|. SUTRA family not covered. Continuous inputs sampled by seed.',
+        tech='TLA+ spec (CashFlow.tla) model-checked with TLC; TLC trace validation (TraceCashFlow.tla) of recorded runs; small-series replay into code'),
     'C16': dict(
         cat='model_checking', ref='DESIGN.md section 5 C16',
         text='Schedule.tla is model-checked exhaustively over small schedules (all lifetimes<=4/6, start years, durations, '
